@@ -6,9 +6,9 @@ EXTENDS JetProg
 CONSTANTS Depth
 
 Sites   == {"include", "includectx", "exec", "execctx", "incif", "incifctx", "incifmissing", "includemissing", "execmissing",
-            "incifbroken", "includebroken", "execbroken", "includecomputed"}
+            "incifbroken", "includebroken", "execbroken", "includecomputed", "execctxnil", "includectxnil", "incifctxnil"}
 Shapes  == {"plain", "ext1", "ext2"}
-Returns == {"none", "top", "two", "inif", "inelse", "inrange", "intry", "nested", "thenif", "thentry", "theninclude", "nilret", "incatch", "incatchvar", "afterfailedtry"}
+Returns == {"none", "top", "two", "inif", "inelse", "inrange", "intry", "nested", "thenif", "thentry", "theninclude", "nilret", "incatch", "incatchvar", "afterfailedtry", "retctx"}
 SiteKinds == {"range", "ycont", "tryin", "include", "iflet"}
 
 RetBody(rk) ==
@@ -27,6 +27,7 @@ RetBody(rk) ==
     [] rk = "incatchvar"  -> <<TryCatchS("ct", <<P("tf", FailE)>>, "e", <<T("cb"), Ret("r1", Lit("rv1"))>>), T("c0")>>
     [] rk = "afterfailedtry" -> <<Ret("r1", Lit("rv1")), TryS("ct", <<Ret("r2", Lit("rv2")), P("tf", FailE)>>), T("c0")>>
     [] rk = "nilret"      -> <<Ret("r1", Lit(Nil)), T("c0")>>
+    [] rk = "retctx"      -> <<T("c0"), Ret("r1", Ctx)>>          \* what '.' was inside, made visible to exec's caller
 
 MkC(par) ==
   LET path == par[1]  site == par[2]  shape == par[3]  rk == par[4]
@@ -43,6 +44,10 @@ MkC(par) ==
                 [] site = "includectx"     -> <<InclCx("call", "cal", Lit("C2"))>>
                 [] site = "exec"           -> <<ExecLet("call", "r", "cal"), P("pr", Var("r"))>>
                 [] site = "execctx"        -> <<ExecLetCx("call", "r", "cal", Lit("C2")), P("pr", Var("r"))>>
+                \* an explicit context that evaluates to nil is still the context given: '.' is nil inside
+                [] site = "execctxnil"     -> <<ExecLetCx("call", "r", "cal", NilVar), P("pr", Var("r"))>>
+                [] site = "includectxnil"  -> <<InclCx("call", "cal", NilVar)>>
+                [] site = "incifctxnil"    -> <<[IncIf("call", "cal") EXCEPT !.e = NilVar]>>
                 [] site = "incif"          -> <<IncIf("call", "cal")>>
                 [] site = "incifctx"       -> <<[IncIf("call", "cal") EXCEPT !.e = Lit("C2")]>>
                 [] site = "incifmissing"   -> <<IncIf("call", "nosuch")>>
@@ -66,6 +71,7 @@ MkC(par) ==
 cParams == {p \in PathsUpTo(SiteKinds, Depth) \X Sites \X Shapes \X Returns :
               /\ (p[2] \in {"incifmissing", "includemissing", "execmissing", "incifbroken", "includebroken", "execbroken"} => p[3] = "plain" /\ p[4] = "none")
               /\ (p[2] = "includecomputed" => p[4] = "none")
-              /\ (p[4] # "none" => p[2] \in {"exec", "execctx", "include"})
-              /\ (p[3] # "plain" => p[4] \in {"none", "top"})}
+              /\ (p[2] \in {"execctxnil", "includectxnil", "incifctxnil"} => p[4] \in {"none", "top", "retctx"})
+              /\ (p[4] # "none" => p[2] \in {"exec", "execctx", "include", "execctxnil", "includectxnil", "incifctxnil"})
+              /\ (p[3] # "plain" => p[4] \in {"none", "top", "retctx"})}
 =============================================================================
